@@ -243,6 +243,16 @@ theorem countP_tagged (pre : Bytes) (a : Bool) (s : Bytes) : (tagged pre a s).co
       · simp
     simp [this]
 
+/-- Dropping the prefix bytes from the tagged rendering gives back the text. -/
+theorem filter_tagged (pre : Bytes) (a : Bool) (s : Bytes) :
+    ((tagged pre a s).filter (·.2)).map (·.1) = s := by
+  induction s generalizing a with
+  | nil => simp [tagged]
+  | cons b r ih =>
+    have : List.filter (·.2) (if a then List.map (·, false) pre else []) = [] := by
+      cases a <;> simp
+    simp [tagged, this, ih]
+
 theorem callerBytesIn_le (pre : Bytes) (a : Bool) (s : Bytes) (k : Nat) :
     callerBytesIn pre a s k ≤ s.length := by
   unfold callerBytesIn
@@ -307,5 +317,32 @@ theorem written_write (pre : Bytes) (p : Bool) {s : Bytes} (h : s ≠ []) (k : N
   simp only [if_true]
   rw [List.drop_left' (tp_length pre)]
   simp [callerBytesIn]
+
+/-! ### `write`, as a whole record -/
+
+theorem write_none_eq (pre : Bytes) (p : Bool) (buf : Bytes) :
+    write pre p buf none =
+      { partial_ := !(atStartAfter (!p) buf), handed := render pre (!p) buf,
+        reached := render pre (!p) buf, n := buf.length, err := false } := by
+  by_cases hb : buf = []
+  · subst hb; simp [write, render_nil, atStartAfter]
+  · have hj := join_write pre p hb
+    have hp := partial_bit pre (!p) hb
+    simp only [write, List.isEmpty_iff, hb, if_false, hj, hp]
+
+theorem callerBytesIn_min (pre : Bytes) (a : Bool) (s : Bytes) (k : Nat) :
+    callerBytesIn pre a s (min k (render pre a s).length) = callerBytesIn pre a s k := by
+  have hlen : (render pre a s).length = (tagged pre a s).length := by simp [render]
+  simp only [callerBytesIn, hlen, ← List.take_eq_take_min]
+
+theorem write_some_eq (pre : Bytes) (p : Bool) {buf : Bytes} (h : buf ≠ []) (k : Nat) :
+    write pre p buf (some k) =
+      { partial_ := !(atStartAfter (!p) buf), handed := render pre (!p) buf,
+        reached := (render pre (!p) buf).take k, n := callerBytesIn pre (!p) buf k, err := true } := by
+  have hj := join_write pre p h
+  have hp := partial_bit pre (!p) h
+  have hw := written_write pre p h (min k (render pre (!p) buf).length)
+  have hc := callerBytesIn_min pre (!p) buf k
+  simp only [write, List.isEmpty_iff, h, if_false, hj, hp, hw, hc, ← List.take_eq_take_min]
 
 end Goyang.Lemmas.Indent
